@@ -72,6 +72,30 @@ def run_history(case):
                     if a.data != raw:
                         vs.append(V("a Session-Id supplied as bytes is carried unchanged", "bytes-altered", f"{a.data!r} != {raw!r}"))
                     continue
+                if k == "typed-foreign":
+                    # a message that carries somebody else's Session-Id (supplied as bytes / decoded from the wire), e.g. a relayed request
+                    raw = f"peer.remote.example;{op['high']};{op['low']}".encode()
+                    m = UpdateLocationRequest(session_id=raw, origin_host="peer.remote.example", origin_realm="realm", destination_realm="r",
+                                              user_name="001010000000001", visited_plmn_id=b"\x00\xf1\x10")
+                    if op.get("decoded"):
+                        from bromelia.base import DiameterMessage
+                        m = DiameterMessage.load(m.dump())[0]
+                    if m.session_id_avp.data != raw:
+                        vs.append(V("a Session-Id supplied as bytes is carried unchanged", "bytes-altered/typed", f"{m.session_id_avp.data!r} != {raw!r}"))
+                    msgs.append(m)
+                    continue
+                if k == "update-bytes":
+                    if not msgs:
+                        continue
+                    m = msgs[op["msg"] % len(msgs)]
+                    raw = bytes.fromhex(op["x"])
+                    pairs = [("origin_host", IDENTS[op["ident"]]), ("session_id", raw)]
+                    m.update_avps(dict(pairs if op["order"] == 0 else pairs[::-1]))
+                    wire = [a for a in m.avps if type(a).__name__ == "SessionIdAVP"]
+                    if m.session_id_avp.data != raw or len(wire) != 1 or wire[0].data != raw:
+                        vs.append(V("a Session-Id supplied as bytes is carried unchanged", "bytes-altered/bulk-update-with-origin",
+                                    f"step {step}: update_avps(origin_host, session_id={raw!r}) left {m.session_id_avp.data!r}"))
+                    continue
                 ident = IDENTS[op["ident"]]
                 if k == "sid":
                     sid = SessionIdAVP(ident).data
@@ -146,6 +170,12 @@ op = st.one_of(
     st.builds(lambda m, i: {"op": "update", "msg": m, "ident": i}, st.integers(0, 5), ident),
     st.builds(lambda m, i: {"op": "update", "msg": m, "ident": i}, st.integers(0, 5), ident),
     st.builds(lambda x: {"op": "bytes", "x": x.hex()}, st.binary(max_size=20)),
+    st.builds(lambda h, l, d: {"op": "typed-foreign", "high": h, "low": l, "decoded": d},
+              st.sampled_from([1, 2**31, 2**32 - 1, 3923553690, 3923553600, 3923553599]), st.integers(0, 9), st.booleans()),
+    st.builds(lambda m, i, o, x: {"op": "update-bytes", "msg": m, "ident": i, "order": o, "x": x.hex()}, st.integers(0, 5), ident, st.integers(0, 1),
+              # Session-Id is a UTF8String: text only (a later regeneration reads the previous id as text)
+              st.one_of(st.text(min_size=1, max_size=12).map(lambda t: t.encode("utf-8")), st.just(b"peer.remote.example;1;2"),
+                        st.just(b"peer.remote.example;4294967295;2;x"))),
     st.builds(lambda d: {"op": "tick", "d": d}, st.sampled_from([0, 0, 0, 1, 1, 1000])),
 )
 cases = st.builds(lambda ops: {"ops": ops}, st.lists(op, min_size=2, max_size=30))
@@ -169,11 +199,21 @@ def features(case):
         if o["op"] == "bytes":
             f.add("bytes-input")
             continue
+        if o["op"] == "typed-foreign":
+            last_ident[n_msgs] = "foreign"
+            n_msgs += 1
+            continue
+        if o["op"] == "update-bytes":
+            if n_msgs:
+                f.add("bulk-update-with-origin-and-bytes-id")
+            continue
         if o["op"] == "typed":
             last_ident[n_msgs] = o["ident"]
             n_msgs += 1
         if o["op"] == "update" and n_msgs:
             k = o["msg"] % n_msgs
+            if last_ident.get(k) == "foreign":
+                f.add("bulk-origin-update-of-a-foreign-session-id")
             if last_ident.get(k) != o["ident"]:
                 upd_in_sec += 1
                 last_ident[k] = o["ident"]
@@ -201,7 +241,8 @@ def main(ctx):
     col = common.run_shards(_collect, 8 if ctx.quick else 16, ctx.seed, n=250 if ctx.quick else 3000)
     for path, rec in common.load_replays(PID):
         col.record(rec["case"], run_case(rec["case"]), nontrivial=True, classes=["replay"])
-    ctx.required_classes = ["two-identity-switches-in-one-second", "two-identities-in-one-second", "bytes-input"]
+    ctx.required_classes = ["two-identity-switches-in-one-second", "two-identities-in-one-second", "bytes-input",
+                            "bulk-origin-update-of-a-foreign-session-id", "bulk-update-with-origin-and-bytes-id"]
     ctx.assumptions = ["identities contain no ';'", "the clock is the virtual clock substituted for bromelia._internal_utils.datetime; "
                        "SessionHandler.reset() at the start of each history models process start"]
 
